@@ -199,6 +199,8 @@ def gen_case(seed: int, prop: str, tier: str, kind: str | None = None) -> dict:
     case["cops"] = cops
     case["share_obj"] = rng.random() < 0.5
     case["reopen"] = rng.random() < 0.3
+    if rng.random() < 0.1 and cops and not case.get("fault"):
+        case["eio"] = {str(rng.randrange(len(cops))): rng.choice([1, 1, 2, 3, 5, 8]) for _ in range(rng.choice([1, 2, 3]))}
     return case
 
 
@@ -660,23 +662,45 @@ def run_case(case: dict) -> RunResult:
             if s.size != size:
                 viol = v("size", f"view {vi}: size {s.size} != {size}")
                 break
-            try:
-                with metered(STEP_LIMIT, "loop", world.step_allowance(STEP_LIMIT, 2.0, 1 << 23)):
-                    if op[0] == "r":
-                        off, ln = op[2], op[3]
-                        s.seek(off)
-                        got = s.read(ln)
-                    else:
-                        off, ln = op[2] * sector, op[3] * sector
-                        got = rs_fn(s, op[2], op[3])
-            except BudgetExceeded:
-                viol = v("budget", f"{op} did not finish within the step budget")
-                break
-            except Exception as e:
-                tb = traceback.extract_tb(e.__traceback__)[-1]
-                log.add("client", op[0], op[1:], "raised:" + type(e).__name__)
-                viol = v("raised:" + type(e).__name__, f"{op} raised {type(e).__name__}: {e} at {tb.filename.rsplit('/', 1)[-1]}:{tb.lineno}"[:300])
-                break
+            arm = (case.get("eio") or {}).get(str(op_no))
+            got = None
+            for attempt in ((arm, None) if arm else (None,)):
+                fired0 = world.faults_fired["eio_on_read"]
+                if attempt:
+                    # fault-injecting configuration: a transient I/O error on the k-th read call from now on, on whichever handle
+                    # of the chain (child, ancestors, extents) makes it. The request may fail; it is then repeated without a fault.
+                    for _, h in world.handles:
+                        if not h.closed:
+                            h.eio_at = h.reads + attempt
+                    log.add("injector", "arm-eio", attempt, None)
+                try:
+                    with metered(STEP_LIMIT, "loop", world.step_allowance(STEP_LIMIT, 2.0, 1 << 23)):
+                        if op[0] == "r":
+                            off, ln = op[2], op[3]
+                            s.seek(off)
+                            got = s.read(ln)
+                        else:
+                            off, ln = op[2] * sector, op[3] * sector
+                            got = rs_fn(s, op[2], op[3])
+                    for _, h in world.handles:
+                        h.eio_at = None
+                    break
+                except BudgetExceeded:
+                    viol = v("budget", f"{op} did not finish within the step budget")
+                    break
+                except Exception as e:
+                    if world.faults_fired["eio_on_read"] > fired0:
+                        world.probes["chain.request_failed_on_injected_eio"] += 1
+                        log.add("client", op[0], op[1:], "raised-on-eio:" + type(e).__name__)
+                        continue
+                    tb = traceback.extract_tb(e.__traceback__)[-1]
+                    log.add("client", op[0], op[1:], "raised:" + type(e).__name__)
+                    viol = v("raised:" + type(e).__name__, f"{op} raised {type(e).__name__}: {e} at {tb.filename.rsplit('/', 1)[-1]}:{tb.lineno}"[:300])
+                    break
+            if viol or got is None:
+                if viol:
+                    break
+                continue
             seq = log.add("client", op[0], op[1:], got)
             want = view.expected(off, ln)
             src_layers = tuple(sorted({x[1] if x != "Z" else 0 for _, _, x in view.segs(off // 512, max(off // 512 + 1, (min(off + ln, size) + 511) // 512))})) if off < size and ln else ()
